@@ -20,6 +20,6 @@ class Mul(Opcode):
             processor.registers.set(self.d, f_result)
             if self.setflags:
                 processor.registers.cpsr.n = bit_at(result, 31)
-                processor.registers.cpsr.z = 0 if result else 1
+                processor.registers.cpsr.z = 0 if f_result else 1
                 if arch_version() == 4:
                     processor.registers.cpsr.c = 0  # unknown
